@@ -70,6 +70,10 @@ type Engine struct {
 	curPos    token.Pos
 	idleHook  FuncV
 	deferGo   bool
+	interferer FuncV
+	inIntf     bool
+	intfRan    *Term
+	intfCount  map[string]int
 	spawned   []func()
 	logf      func(format string, a ...interface{})
 	vcTimeoutNote string
@@ -108,6 +112,8 @@ func NewEngine(prog *ssa.Program, solver *Solver) *Engine {
 	return theEngine
 }
 
+var repoRoot = "/repo"
+
 func (e *Engine) pos(p token.Pos) string {
 	if !p.IsValid() {
 		p = e.curPos
@@ -117,7 +123,7 @@ func (e *Engine) pos(p token.Pos) string {
 	}
 	ps := e.prog.Fset.Position(p)
 	f := ps.Filename
-	f = strings.TrimPrefix(f, "/repo/")
+	f = strings.TrimPrefix(f, repoRoot+"/")
 	return fmt.Sprintf("%s:%d", f, ps.Line)
 }
 
@@ -412,7 +418,7 @@ func (e *Engine) inputModel(m map[string]uint64) map[string]uint64 {
 	}
 	// select choices and other engine vars
 	for n, v := range m {
-		if strings.HasPrefix(n, "sel!") {
+		if strings.HasPrefix(n, "sel!") || strings.HasPrefix(n, "intf!") {
 			out[n] = v
 		}
 	}
